@@ -628,12 +628,177 @@ Definition report_known (case trace : list N) : N :=
   if report_sound case trace && match rjudged case trace with Some o => ro_leak o | None => false end
   then 1 else 0.
 
+(* ====================================================================================
+   composed (case kind 3): real ProtocolSets feed one real TransportService through its real,
+   bounded event channel (capacity 1, so that one poll of the service consumes at most one
+   event and every consumed event can be observed on its own).
+     case  : 3 ka n0 nops (tag a b)*
+             1 report_connection_established(conn b of peer a)   2 report_connection_closed(conn a)
+             3 inbound substream on conn a      4 outbound substream b opened on conn a
+             5 open of substream b on conn a failed               6 the service is polled once
+             7 the protocol calls open_substream(peer a)          8 the protocol drops a substream of conn a
+     trace : 3 |rcase| rcase |rtrace| rtrace |scase| scase |strace| strace
+             where rcase is the report-level case (kind 2, one protocol, capacity 1: the reports,
+             and "receive one event" for every poll), rtrace its trace, scase the service-level
+             case whose inputs are, poll by poll, the event the channel delivered (the model takes
+             them from the report model's run), and strace its trace.
+   The composed trace has to satisfy BOTH oracles.
+   ==================================================================================== *)
+Inductive cop :=
+| CEst (p c : N) | CClosed (c : N) | CSubIn (c : N) | CSubOut (c i : N) | CSubFail (c i : N)
+| CPoll | COpen (p : N) | CDrop (c : N).
+Definition p_cop : parser cop :=
+  let* tag := pN in let* a := pN in let* b := pN in
+  match tag with
+  | 1 => pret (CEst a b) | 2 => pret (CClosed a) | 3 => pret (CSubIn a) | 4 => pret (CSubOut a (rid b))
+  | 5 => pret (CSubFail a (rid b)) | 6 => pret CPoll | 7 => pret (COpen a) | 8 => pret (CDrop a)
+  | _ => pfail
+  end.
+Definition cop_small (o : cop) : bool :=
+  match o with
+  | CEst p c => small p && small c
+  | CClosed c | CSubIn c | CDrop c => small c
+  | CSubOut c i | CSubFail c i => small c && (small i || ((ID_MOD - 2000000 <? i) && (i <? ID_MOD)))
+  | CPoll => true
+  | COpen p => small p
+  end.
+Definition decode_ccase (l : list N) : option (bool * N * list cop) :=
+  match pall (let* kind := pN in let* ka := pBool in let* n0 := pN in let* ops := plist p_cop in
+              pret (kind, ka, n0, ops)) l with
+  | Some (kind, ka, n0, ops) =>
+      if (kind =? 3) && forallb cop_small ops &&
+         nodup_b (flat_map (fun o => match o with CEst _ c => [c] | _ => [] end) ops) &&
+         (small n0 || ((W40 <? n0) && (n0 <? W40 + 1000000)))
+      then Some (ka, n0, ops) else None
+  | None => None
+  end.
+
+(* the report-level case *)
+Definition rop_of (o : cop) : list N :=
+  match o with
+  | CEst _ c => [3; c; 0; 0]
+  | CClosed c => [4; c; 0; 0]
+  | CSubIn c => [1; c; 0; 0]
+  | CSubOut c i => [1; c; 0; i + 1]       (* ids of the composed stream are small or wrap-coded *)
+  | CSubFail c i => [2; c; 0; i]
+  | CPoll => [5; 0; 1; 0]
+  | COpen _ | CDrop _ => []
+  end.
+Definition is_rop (o : cop) : bool := match o with COpen _ | CDrop _ => false | _ => true end.
+Definition rcase_of (ops : list cop) : list N :=
+  [2; 1; 1; N.of_nat (length (filter is_rop ops))] ++ flat_map rop_of ops.
+Definition dop_of (o : cop) : list dop :=
+  match o with
+  | CEst _ c => [DEst c 0]
+  | CClosed c => [DBase (RClosed c)]
+  | CSubIn c => [DBase (RSubOpen c 0 None)]
+  | CSubOut c i => [DBase (RSubOpen c 0 (Some i))]
+  | CSubFail c i => [DBase (RSubFail c 0 i)]
+  | CPoll => [DBase (RDrain 0 1)]
+  | COpen _ | CDrop _ => []
+  end.
+Definition peer_of (ops : list cop) (c : N) : N :=
+  match find (fun o => match o with CEst _ c' => c' =? c | _ => false end) ops with
+  | Some (CEst p _) => p
+  | _ => 0
+  end.
+(* the service-level op of one consumed event *)
+Definition sop_of_item (ops : list cop) (i : item) : list N :=
+  match i with
+  | IEst c => [0; 1; peer_of ops c; c]
+  | IClosed c => [0; 2; peer_of ops c; c]
+  | IOpened c None => [0; 3; peer_of ops c; c; 1]
+  | IOpened _ (Some i) => [0; 4; wid i; 1]
+  | IFailure _ i => [0; 5; wid i]
+  end.
+Fixpoint sops (all : list cop) (d : dst) (ops : list cop) : list N * nat :=
+  match ops with
+  | [] => ([], O)
+  | o :: t =>
+      match o with
+      | COpen p => let '(r, n) := sops all d t in ([0; 7; p] ++ r, S n)
+      | CDrop c => let '(r, n) := sops all d t in ([0; 8; c] ++ r, S n)
+      | _ =>
+          match dop_of o with
+          | [x] =>
+              let '(d', out) := dstep d x in
+              let '(r, n) := sops all d' t in
+              match o with
+              | CPoll => (match do_got out with
+                          | i :: _ => sop_of_item all i
+                          | [] => [0; 0]
+                          end ++ r, S n)
+              | _ => (r, n)
+              end
+          | _ => sops all d t
+          end
+      end
+  end.
+Definition scase_of (ka : bool) (n0 : N) (ops : list cop) : list N :=
+  let '(r, n) := sops ops (dinit 1 1) ops in
+  [b2n ka; 3600000; n0; N.of_nat n] ++ r.
+
+Definition seg (l : list N) : list N := N.of_nat (length l) :: l.
+Definition run_compose (l : list N) : list N :=
+  match decode_ccase l with
+  | Some (ka, n0, ops) =>
+      let rc := rcase_of ops in
+      let sc := scase_of ka n0 ops in
+      3 :: seg rc ++ seg (run_report rc) ++ seg sc ++ seg (run_case_svc sc)
+  | None => [0]
+  end.
+
+(* the oracle: both oracles on the segments the implementation printed, and the two cases are the
+   ones that belong to this composed case *)
+Definition p_seg : parser (list N) := plist pN.
+(* the channel-borne inputs of a service-level history, and the received events of a report
+   trace, in a common form (the connection of an outbound answer is not part of the event) *)
+Definition chan_evs (tr : list (N * ev)) : list triple :=
+  flat_map (fun de => match snd de with
+                      | EEst _ c => [(1, c, 0)]
+                      | EClosed _ c => [(2, c, 0)]
+                      | ESubIn _ c _ => [(3, c, 0)]
+                      | ESubOut i _ => [(3, 0, i + 1)]
+                      | ESubFail i => [(4, 0, i)]
+                      | _ => []
+                      end) tr.
+Definition norm_triple (t : triple) : triple :=
+  match t with
+  | (3, c, d) => if d =? 0 then (3, c, 0) else (3, 0, d)
+  | _ => t
+  end.
+Definition compose_ok (case trace : list N) : bool :=
+  match decode_ccase case, trace with
+  | Some (ka, n0, ops), 3 :: body =>
+      match pall (let* rc := p_seg in let* rt := p_seg in let* sc := p_seg in let* st := p_seg in
+                  pret (rc, rt, sc, st)) body with
+      | Some (rc, rt, sc, st) =>
+          nlist_eqb rc (rcase_of ops) &&
+          report_ok rc rt && prop_ok_C08_svc sc st &&
+          (* every event the service consumed is the one the report side handed over, in order:
+             the inputs of the service-level case are the "received" events of the report trace *)
+          nlist_eqb (firstn 3 sc) [b2n ka; 3600000; n0] &&
+          match rjudged rc rt, decode_case sc with
+          | Some o, Some (_, _, _, tr) =>
+              list_eqb triple_eqb (chan_evs tr) (map norm_triple (nth 0 (ro_del o) []))
+          | _, _ => false
+          end
+      | None => false
+      end
+  | None, [0] => true
+  | _, _ => false
+  end.
+
 (* ---- dispatch on the case kind ---- *)
 Definition run_case (l : list N) : list N :=
-  match l with 2 :: _ => run_report l | _ => run_case_svc l end.
+  match l with 2 :: _ => run_report l | 3 :: _ => run_compose l | _ => run_case_svc l end.
 Definition prop_ok_C08 (case trace : list N) : bool :=
-  match case with 2 :: _ => report_ok case trace | _ => prop_ok_C08_svc case trace end.
+  match case with
+  | 2 :: _ => report_ok case trace
+  | 3 :: _ => compose_ok case trace
+  | _ => prop_ok_C08_svc case trace
+  end.
 Definition prop_ok_C09 (case trace : list N) : bool :=
-  match case with 2 :: _ => true | _ => prop_ok_C09_svc case trace end.
+  match case with 2 :: _ | 3 :: _ => true | _ => prop_ok_C09_svc case trace end.
 Definition known_class_C08 (case trace : list N) : N :=
   match case with 2 :: _ => report_known case trace | _ => 0 end.
